@@ -355,6 +355,18 @@ func (r *run) applyContract(fr *frame, st *State, ct *Contract, sig *types.Signa
 		t := r.specBool(env, rq.Expr, rq.Text)
 		r.oblige(fr.name, kind, reach, t, fmt.Sprintf("%s requires %s", cname, rq.Text), pos)
 	}
+	// recursion: the measure decreases and is bounded below
+	if callee != nil && fr.root != nil && callee == fr.root.fn {
+		if ct.Decreases == nil {
+			r.oblige(fr.name, "decreases", reach, "false", "recursive call without a termination measure", pos)
+		} else {
+			newM := env.tr(ct.Decreases.Expr).Term
+			oenv := r.newEnv(fr.root, r.entry)
+			oenv.ensMode = true
+			oldM := oenv.tr(ct.Decreases.Expr).Term
+			r.oblige(fr.name, "decreases", reach, fmt.Sprintf("(and (<= 0 %s) (< %s %s))", oldM, newM, oldM), "recursive call decreases "+ct.Decreases.Text, pos)
+		}
+	}
 	// frame
 	pre := st.clone()
 	eff := &effects{cells: map[*ssa.Alloc]bool{}, heaps: map[string]bool{}, globals: map[*ssa.Global]bool{}}
